@@ -138,3 +138,76 @@ def run_variants(prog: Program, prop: str, run_rules, variants: list[Variant], b
     if total and applied / total < 0.8 and not only_controls:
         raise AnalysisError(f"self-test: only {applied}/{total} variants apply to the current source")
     return {"variants_applied": applied, "variants_skipped": skipped, "details": details}
+
+
+
+def seeded_regression(prog: Program, prop: str, run_rules, base_findings) -> dict:
+    """Thorough tier: re-apply every kept seeded change of this property (/verif/seeded/<id>/patch.diff, written by
+    independent testers, each confirmed to break the property while the test suite passes) to an in-memory copy of the
+    affected modules and require that the rules still report it.  A patch that no longer applies is skipped and counted."""
+    import json
+    import os
+    import re
+    import shutil
+    import subprocess
+    import tempfile
+
+    root = os.path.join(os.path.dirname(os.path.dirname(os.path.abspath(__file__))), "seeded")
+    out = {"applied": 0, "skipped": 0, "reported": 0, "details": []}
+    if not os.path.isdir(root):
+        return out
+    base = {}
+    for f in base_findings:
+        base[(f.rule, f.qualname)] = base.get((f.rule, f.qualname), 0) + 1
+    failures = []
+    for sid in sorted(os.listdir(root)):
+        mp = os.path.join(root, sid, "meta.json")
+        pp = os.path.join(root, sid, "patch.diff")
+        if not (os.path.exists(mp) and os.path.exists(pp)):
+            continue
+        meta = json.load(open(mp))
+        expected = prop in meta.get("verified", {}).get("detected_by", [])
+        if not expected:
+            continue
+        files = re.findall(r"^\+\+\+ b/(\S+)", open(pp).read(), flags=re.M)
+        td = tempfile.mkdtemp(prefix="sfseed")
+        try:
+            ok = True
+            for rel in files:
+                m = prog.by_relpath.get(rel)
+                if m is None:
+                    ok = False
+                    break
+                os.makedirs(os.path.dirname(os.path.join(td, rel)), exist_ok=True)
+                with open(os.path.join(td, rel), "w") as fh:
+                    fh.write(m.source)
+            if ok:
+                r = subprocess.run(["git", "apply", "--whitespace=nowarn", pp], cwd=td, capture_output=True, text=True)
+                ok = r.returncode == 0
+            if not ok:
+                out["skipped"] += 1
+                out["details"].append({"seed": sid, "status": "skipped (patch does not apply to the analysed tree)"})
+                continue
+            vp = prog
+            for rel in files:
+                vp = vp.with_override(rel, open(os.path.join(td, rel)).read())
+        finally:
+            shutil.rmtree(td, ignore_errors=True)
+        out["applied"] += 1
+        try:
+            fs = run_rules(vp)
+        except AnalysisError as e:
+            failures.append(f"seeded change {sid} makes the analysis refuse instead of reporting: {e}")
+            continue
+        keys = {}
+        for f in fs:
+            keys[(f.rule, f.qualname)] = keys.get((f.rule, f.qualname), 0) + 1
+        new = sorted(k for k, n in keys.items() if n > base.get(k, 0))
+        if new:
+            out["reported"] += 1
+            out["details"].append({"seed": sid, "status": "reported", "by": [f"{r}@{q.rsplit('.', 2)[-2]}.{q.rsplit('.', 1)[-1]}" for r, q in new][:4]})
+        else:
+            failures.append(f"seeded change {sid} is recorded as detected by {prop} but is no longer reported")
+    if failures:
+        raise AnalysisError("seeded-change regression failed: " + "; ".join(failures))
+    return out
